@@ -560,6 +560,19 @@ impl Session {
         }
     }
 
+    /// Offer a message counter to this session's receive window exactly as `post_recv` does
+    /// (`encrypted` stands in for `is_encrypted()`, which needs a keyed session).
+    #[cfg(feature = "verif")]
+    pub fn verif_rx_ctr(&mut self, ctr: u32, encrypted: bool) -> bool {
+        self.rx_ctr_state.post_recv(ctr, encrypted, false)
+    }
+
+    /// `(max_ctr, ctr_bitmap)` of this session's receive window.
+    #[cfg(feature = "verif")]
+    pub fn verif_rx_ctr_state(&self) -> (u32, u16) {
+        self.rx_ctr_state.verif_state()
+    }
+
     /// Whether the session's peer address is a multicast address — true only
     /// for TX group sessions (see [`Sessions::get_or_create_for_group_tx`]).
     pub(crate) fn is_peer_multicast(&self) -> bool {
